@@ -12,7 +12,8 @@
    <= t, printf-style digits), the harness shows specification and glibc coincide. *)
 From Coq Require Import List ZArith Lia Bool Arith NArith.
 From Coq.Strings Require Import Byte.
-From Muduo Require Import Base_Bytes Gen_C20 C20_Model C20_Proofs C20_TzProofs C20_TextProofs.
+From Muduo Require Import Base_Bytes Gen_C20 Gen_C20Net C20_Model C20_NetModel C20_TzifModel
+  C20_Proofs C20_TzProofs C20_TextProofs C20_NetProofs C20_TzifProofs.
 Import ListNotations.
 Local Open Scope Z_scope.
 
@@ -163,6 +164,79 @@ Example C20_tz_nonvacuous :
   fromLocalSeconds tb (3000000 + 3600 + 10) false = 3000000 + 10.
 Proof. vm_compute. repeat split; try reflexivity; discriminate. Qed.
 
+(* ------------------------------------------------------------------ the TZif reader *)
+
+(* [tzif_parse] models detail::readTimeZoneFile / readDataBlock statement by statement
+   (C20_TzifModel; compared with the real reader on every leap-second-free file under
+   /usr/share/zoneinfo, on files written by an independent encoder and on malformed variants).
+   Whatever bytes it accepts: every transition's type index is valid (Data::addTransition's
+   localtimes.at()), so the decidable well-formedness predicate of the lookup theorems comes
+   down to "at least one type" and the spacing of the instants. *)
+Theorem C20_tzif_parse_shape : forall file tb, tzif_parse file = TzOk tb ->
+  Forall (fun tr => (tidx tr < length (offs tb))%nat) (trans tb) /\
+  wf tb = (0 <? length (offs tb))%nat && wf_gaps tb (off_of tb 0) (trans tb).
+Proof. intros file tb H. exact (conj (tzif_parse_idx file tb H) (tzif_parse_wf file tb H)). Qed.
+Print Assumptions C20_tzif_parse_shape.
+
+(* ... and when that predicate computes to true on the parsed table, the lookup theorems apply
+   to it: toLocalTime uses the last transition <= t, fromLocalTime inverts it as stated in
+   C20_local_roundtrip_partial / C20_local_skipped_partial. *)
+Theorem C20_tzif_lookup : forall file tb, tzif_parse file = TzOk tb -> wf tb = true ->
+  (forall t, find_utc tb t = spec_type tb t) /\
+  (forall t, let s := seg tb t in let L := t + offset_at tb t in
+     ((s = nT tb \/ L < U tb s + O tb s) -> fromLocalSeconds tb L true = t) /\
+     ((s = 0%nat \/ U tb (s - 1) + OB tb (s - 1) <= L) -> (s = nT tb \/ L < U tb s + O tb s) ->
+        fromLocalSeconds tb L false = t) /\
+     ((1 <= s)%nat -> (S s < nT tb)%nat -> U tb s + O tb s <= L ->
+        fromLocalSeconds tb L false = t /\ fromLocalSeconds tb L true = L - O tb s)) /\
+  (forall j L post, (1 <= j < nT tb)%nat -> U tb j + OB tb j <= L < U tb j + O tb j ->
+     fromLocalSeconds tb L post = L - (if post then O tb j else OB tb j)).
+Proof.
+  intros file tb _ Hw. split; [|split].
+  - intros t. exact (lookup_wf tb t Hw).
+  - intros t. exact (conj (local_later tb t Hw) (conj (local_only_or_first tb t Hw) (local_earlier tb t Hw))).
+  - intros j L post. exact (local_skipped tb j L post Hw).
+Qed.
+Print Assumptions C20_tzif_lookup.
+
+(* The reader reads back what an RFC 8536 writer without leap seconds wrote ([encode_v1] /
+   [encode_v2]: header, six counts, transition times of 4 / 8 bytes, type indices, ttinfo
+   entries, abbreviation characters, standard/wall and UT/local indicators, footer), for EVERY
+   table whose values fit the format ([encodable]), any abbreviation / indicator / footer bytes:
+   the 32-bit data of a file whose version byte is not '2' (version 1, and -- as the source
+   documents -- versions 3 and 4 as well), the 64-bit data of a version-2 file whatever its
+   32-bit half holds.  `6 * typecnt` of the first header is computed in int by the C++. *)
+Theorem C20_tzif_reads_rfc8536 :
+  (forall version tb abbr isstd isut tail, version <> x32 -> encodable 4 tb abbr isstd isut ->
+     tzif_parse (encode_v1 version tb abbr isstd isut tail) = TzOk tb) /\
+  (forall tb1 abbr1 isstd1 isut1 tb abbr isstd isut footer,
+     encodable 4 tb1 abbr1 isstd1 isut1 -> 6 * Z.of_nat (length (offs tb1)) < 2 ^ 31 ->
+     encodable 8 tb abbr isstd isut ->
+     tzif_parse (encode_v2 tb1 abbr1 isstd1 isut1 tb abbr isstd isut footer) = TzOk tb).
+Proof. exact (conj parse_encode_v1 parse_encode_v2). Qed.
+Print Assumptions C20_tzif_reads_rfc8536.
+
+(* non-vacuity: a version-2 file with an empty 32-bit half and two transitions in the 64-bit
+   half (one beyond 2038); a truncated file, a file announcing a leap second and a type index
+   out of range are rejected *)
+Example C20_tzif_nonvacuous :
+  let tb := mkTz [mkTr 1000000 1; mkTr 5000000000 0] [3600; 7200] in
+  let f := encode_v2 tb_empty [x00] [] [] tb [x41; x00] [x00; x01] [] [x0a; x55; x0a] in
+  encodable 4 tb_empty [x00] [] [] /\ encodable 8 tb [x41; x00] [x00; x01] [] /\
+  tzif_parse f = TzOk tb /\ wf tb = true /\ length f = 132%nat /\
+  tzif_parse (firstn 100 f) = TzFail /\
+  tzif_parse (firstn 79 f ++ [x00; x00; x00; x01] ++ skipn 83 f) = TzFail /\
+  tzif_parse (encode_v1 x00 (mkTz [mkTr 5 2] [0; 0]) [x00] [] [] []) = TzFail /\
+  tzif_parse (encode_v1 x33 (mkTz [mkTr 5 1] [0; 60]) [x00] [] [] []) = TzOk (mkTz [mkTr 5 1] [0; 60]) /\
+  tzif_parse (encode_v1 x33 (mkTz [mkTr 5 1] [0; 60]) [] [] [] []) = TzUndefined.
+Proof.
+  cbv zeta. split; [exact encodable_empty|]. split.
+  - unfold encodable. cbn [trans offs length tutc tidx].
+    repeat split; auto; try (cbn; lia);
+      repeat constructor; unfold signed_range; cbn; lia.
+  - vm_compute. repeat split; reflexivity.
+Qed.
+
 (* ------------------------------------------------------------------ text and byte order *)
 
 (* Timestamp::toString reads back (microseconds >= 0) *)
@@ -179,7 +253,7 @@ Theorem C20_timestamp_formatted_roundtrip : forall us,
 Proof. exact timestamp_formatted_len_roundtrip. Qed.
 Print Assumptions C20_timestamp_formatted_roundtrip.
 
-(* big-endian helpers: all widths, all values (shared with C10/C18) *)
+(* big-endian encodings: all widths, all values (Base_Bytes, shared with C10/C18) *)
 Theorem C20_byte_order : forall n x,
   (0 <= x < 256 ^ Z.of_nat n -> be_decode (be_encode n x) = x) /\
   ((0 < n)%nat -> signed_range n x -> be_decode_signed (be_encode n x) = x) /\
@@ -189,30 +263,69 @@ Proof.
 Qed.
 Print Assumptions C20_byte_order.
 
+(* sockets::hostToNetwork16/32/64 and networkToHost16/32/64 -- the functions GENERATED from
+   muduo/net/Endian.h (Gen_C20Net), glibc's htobeN / beNtoh being __bswap_N on this platform --
+   for every value of their width: what hostToNetworkN stores in memory (little-endian host:
+   [le_encode]) is the big-endian image of its argument; networkToHostN of n bytes loaded from
+   memory is the big-endian value of those bytes; the two are inverse to each other. *)
+Theorem C20_endian_helpers :
+  (forall x, 0 <= x < 2 ^ 16 -> le_encode 2 (Endian_hostToNetwork16 x) = be_encode 2 x) /\
+  (forall x, 0 <= x < 2 ^ 32 -> le_encode 4 (Endian_hostToNetwork32 x) = be_encode 4 x) /\
+  (forall x, 0 <= x < 2 ^ 64 -> le_encode 8 (Endian_hostToNetwork64 x) = be_encode 8 x) /\
+  (forall l, length l = 2%nat -> Endian_networkToHost16 (le_decode l) = be_decode l) /\
+  (forall l, length l = 4%nat -> Endian_networkToHost32 (le_decode l) = be_decode l) /\
+  (forall l, length l = 8%nat -> Endian_networkToHost64 (le_decode l) = be_decode l) /\
+  (forall x, 0 <= x < 2 ^ 16 -> Endian_networkToHost16 (Endian_hostToNetwork16 x) = x /\
+                                 Endian_hostToNetwork16 (Endian_networkToHost16 x) = x) /\
+  (forall x, 0 <= x < 2 ^ 32 -> Endian_networkToHost32 (Endian_hostToNetwork32 x) = x /\
+                                 Endian_hostToNetwork32 (Endian_networkToHost32 x) = x) /\
+  (forall x, 0 <= x < 2 ^ 64 -> Endian_networkToHost64 (Endian_hostToNetwork64 x) = x /\
+                                 Endian_hostToNetwork64 (Endian_networkToHost64 x) = x).
+Proof. exact endian_helpers. Qed.
+Print Assumptions C20_endian_helpers.
+
 (* inet_pton(AF_INET) (inet_ntop(AF_INET) a) = a for all 2^32 addresses; the text has no ':' *)
 Theorem C20_ipv4_roundtrip : forall a b c d,
   pton4 (ntop4 [a; b; c; d]) = Some [a; b; c; d] /\ has_colon (ntop4 [a; b; c; d]) = false.
 Proof. intros a b c d. exact (conj (ipv4_roundtrip a b c d) (ntop4_no_colon a b c d)). Qed.
 Print Assumptions C20_ipv4_roundtrip.
 
-(* InetAddress(text, port, false) on a dotted quad: AF_INET, the same four bytes, the port in
-   network order, toIp gives the text back; any text with ':' selects AF_INET6 *)
+(* InetAddress(text, port, ipv6) -- family test, sockets::fromIpPort and InetAddress::port() put
+   together from the facts GENERATED from InetAddress.cc / SocketsOps.cc.  On a dotted quad:
+   AF_INET, the same four bytes, the port stored in network byte order ([port_store] = most
+   significant byte first) and read back by port(), toIp gives the text back.  With the ipv6 flag
+   or any text containing ':': AF_INET6, the port stored the same way, the address inet_pton gave
+   (zero if it failed). *)
 Theorem C20_inet_make : forall pton6,
   (forall a b c d p, 0 <= p < 65536 ->
      let sa := inet_make pton6 (ntop4 [a; b; c; d]) p false in
-     sa_family sa = AF_INET /\ sa_addr sa = [a; b; c; d] /\ port_load (sa_port sa) = p /\
+     sa_family sa = AF_INET /\ sa_addr sa = [a; b; c; d] /\ sa_port sa = port_store p /\ inet_port sa = p /\
      forall ntop6, toIp ntop6 sa = ntop4 [a; b; c; d]) /\
-  (forall ip p flag, has_colon ip = true -> sa_family (inet_make pton6 ip p flag) = AF_INET6).
-Proof. intros pton6. exact (conj (inet_make_ipv4 pton6) (inet_make_colon pton6)). Qed.
+  (forall ip p flag, 0 <= p < 65536 -> (flag = true \/ has_colon ip = true) ->
+     let sa := inet_make pton6 ip p flag in
+     sa_family sa = AF_INET6 /\ sa_port sa = port_store p /\ inet_port sa = p /\
+     sa_addr sa = match pton6 ip with Some a => a | None => zero_bytes 16 end).
+Proof. intros pton6. exact (conj (inet_make_ipv4 pton6) (inet_make_v6 pton6)). Qed.
 Print Assumptions C20_inet_make.
 
-(* toIpPort: "ip:port" / "[ip6]:port" splits back into family, ip text and port, whatever
-   inet_ntop(AF_INET6) printed (platform function, a parameter) *)
+(* InetAddress(port, loopbackOnly, ipv6): family, port in network order, 0.0.0.0 / 127.0.0.1
+   (kInaddrAny / kInaddrLoopback through hostToNetwork32) or :: / ::1 *)
+Theorem C20_inet_port_only : forall p lo v6, 0 <= p < 65536 ->
+  let sa := inet_port_only p lo v6 in
+  sa_family sa = (if v6 then AF_INET6 else AF_INET) /\ sa_port sa = port_store p /\ inet_port sa = p /\
+  sa_addr sa = (if v6 then (if lo then zero_bytes 15 ++ [x01] else zero_bytes 16)
+                else (if lo then [x7f; x00; x00; x01] else [x00; x00; x00; x00])).
+Proof. exact inet_port_only_spec. Qed.
+Print Assumptions C20_inet_port_only.
+
+(* sockets::toIpPort: "ip:port" / "[ip6]:port" splits back into (is it IPv6, ip text, port),
+   whatever inet_ntop(AF_INET6) printed (platform function, a parameter); the port is read in
+   network byte order *)
 Theorem C20_ipport_roundtrip : forall ntop6 sa p,
   0 <= p < 65536 -> sa_port sa = port_store p ->
+  (sa_family sa = AF_INET \/ sa_family sa = AF_INET6) ->
   (sa_family sa = AF_INET -> exists a b c d, sa_addr sa = [a; b; c; d]) ->
-  parse_ipport (toIpPort ntop6 sa) =
-    Some (match sa_family sa with AF_INET6 => true | AF_INET => false end, toIp ntop6 sa, p).
+  parse_ipport (toIpPort ntop6 sa) = Some (sa_family sa =? AF_INET6, toIp ntop6 sa, p).
 Proof. exact ipport_roundtrip. Qed.
 Print Assumptions C20_ipport_roundtrip.
 
@@ -220,5 +333,7 @@ Example C20_text_nonvacuous :
   ts_toString 1234567890123456 = [x31;x32;x33;x34;x35;x36;x37;x38;x39;x30;x2e;x31;x32;x33;x34;x35;x36] /\
   ntop4 [xff; x00; x0a; x09] = [x32;x35;x35;x2e;x30;x2e;x31;x30;x2e;x39] /\
   pton4 [x30;x31;x2e;x32;x2e;x33;x2e;x34] = None /\
-  port_store 8080 = [x1f; x90].
+  port_store 8080 = [x1f; x90] /\ sa_port (inet_port_only 8080 true false) = [x1f; x90] /\
+  Endian_hostToNetwork32 16909060 = 67305985 /\ le_encode 4 67305985 = [x01; x02; x03; x04] /\
+  toIpPort (fun _ => [x3a; x3a; x31]) (inet_port_only 8080 true true) = [x5b;x3a;x3a;x31;x5d;x3a;x38;x30;x38;x30].
 Proof. vm_compute. repeat split; reflexivity. Qed.
